@@ -73,6 +73,11 @@ if TYPE_CHECKING:
 _LOGGER = logging.getLogger(__name__)
 
 
+class _TransactionAbandoned(Exception):
+    """Raised internally after a fault handler abandoned the transaction. It unwinds the running
+    state machine call: an abandoned transaction stops whatever it is doing."""
+
+
 class CompletionDisposition(enum.Enum):
     COMPLETED = 0
     CANCELED = 1
@@ -420,14 +425,17 @@ class DestHandler:
         """
         if packet is not None:
             self._check_inserted_packet(packet)
-        if self.states.state == CfdpState.IDLE:
-            self.__idle_fsm(packet)
-            # Calling the FSM immediately would lead to an exception, user must send any PDUs which
-            # might have been generated (e.g. NAK PDUs to re-request metadata) first.
-            if self.packets_ready:
-                return FsmResult(self.states)
-        if self.states.state == CfdpState.BUSY:
-            self.__non_idle_fsm(packet)
+        try:
+            if self.states.state == CfdpState.IDLE:
+                self.__idle_fsm(packet)
+                # Calling the FSM immediately would lead to an exception, user must send any PDUs
+                # which might have been generated (e.g. NAK PDUs to re-request metadata) first.
+                if self.packets_ready:
+                    return FsmResult(self.states)
+            if self.states.state == CfdpState.BUSY:
+                self.__non_idle_fsm(packet)
+        except _TransactionAbandoned:
+            pass
         return FsmResult(self.states)
 
     def _check_inserted_packet(self, packet: GenericPduPacket) -> None:
@@ -1204,6 +1212,8 @@ class DestHandler:
         elif fh == FaultHandlerCode.ABANDON_TRANSACTION:
             self._abandon_transaction()
         self.cfg.default_fault_handlers.report_fault(transaction_id, cond, progress)
+        if fh == FaultHandlerCode.ABANDON_TRANSACTION:
+            raise _TransactionAbandoned
         return fh
 
     def _notice_of_cancellation(self, condition_code: ConditionCode) -> None:
